@@ -162,4 +162,90 @@ theorem C09_pod_wants_members (E : Env) (path : Str) (u svc : MM.SUnit) (cs : Li
       = keyEntries (preService path u (s "Pod") (s "X-Pod")) (s "Unit") (s "Before") ++ cs.map (fun c => (s "Before", P.quoteValue c)) :=
   ⟨pod_members E path u svc cs h "Wants" (Or.inl rfl), pod_members E path u svc cs h "Before" (Or.inr rfl)⟩
 
+
+/-! ### C08, the statement itself, in the converter models
+
+What a reference does when the referenced unit is known (the object name from the table replaces the file name;
+`Requires=` and `After=` on the target's service file are added) and when it is not (the referrer fails, naming the
+file); and that the name in the table is the name the target's own command creates. -/
+
+open MM
+
+/-- what a reference to an image / build unit does, when the unit is known -/
+theorem C08_image_reference (E : Env) (n : Str) (svc : MM.SUnit) (i : Info)
+    (hn : (endsWith n (s ".build") || endsWith n (s ".image")) = true) (hi : E.info n = some i) :
+    handleImageSource E n svc = .ok (i.resourceName,
+      addS (addS svc "Unit" "Requires" (serviceFileName i)) "Unit" "After" (serviceFileName i)) := by
+  unfold handleImageSource; simp [hn, hi]
+
+/-- … and when it is not: the referrer fails, naming the file -/
+theorem C08_image_reference_missing (E : Env) (n : Str) (svc : MM.SUnit)
+    (hn : (endsWith n (s ".build") || endsWith n (s ".image")) = true) (hi : E.info n = none) :
+    handleImageSource E n svc = .error (.imageNotFound n) := by
+  unfold handleImageSource; simp [hn, hi]
+
+theorem C08_network_reference (E : Env) (n : Str) (svc : MM.SUnit) (i : Info)
+    (hn : (endsWith n (s ".network") || endsWith n (s ".container")) = true) (hi : E.info n = some i)
+    (hr : i.resourceName.isEmpty = false) :
+    networkRef E n svc = .ok (i.resourceName,
+      addS (addS svc "Unit" "Requires" (serviceFileName i)) "Unit" "After" (serviceFileName i)) := by
+  unfold networkRef; simp [hn, hi, hr]
+
+theorem C08_network_reference_missing (E : Env) (n : Str) (svc : MM.SUnit)
+    (hn : (endsWith n (s ".network") || endsWith n (s ".container")) = true) (hi : E.info n = none) :
+    networkRef E n svc = .error (Err.internal (s "unit") n) := by
+  unfold networkRef; simp [hn, hi]
+
+theorem C08_pod_reference (E : Env) (u : MM.SUnit) (sec : Str) (svc : MM.SUnit) (own pod : Str) (i : Info)
+    (hp : lookup u sec (s "Pod") = some pod) (hne : pod.isEmpty = false) (hs : endsWith pod (s ".pod") = true)
+    (hi : E.info pod = some i) :
+    ∃ link, handlePod E u sec svc own = .ok ([s "--pod-id-file", s "%t/" ++ i.serviceName ++ s ".pod-id"],
+      addS (addS svc "Unit" "BindsTo" (serviceFileName i)) "Unit" "After" (serviceFileName i), link) := by
+  unfold handlePod; simp [hp, hne, hs, hi]
+
+theorem C08_pod_reference_missing (E : Env) (u : MM.SUnit) (sec : Str) (svc : MM.SUnit) (own pod : Str)
+    (hp : lookup u sec (s "Pod") = some pod) (hne : pod.isEmpty = false) (hs : endsWith pod (s ".pod") = true)
+    (hi : E.info pod = none) : handlePod E u sec svc own = .error (.podNotFound pod) := by
+  unfold handlePod; simp [hp, hne, hs, hi]
+
+theorem C08_pod_reference_not_a_pod (E : Env) (u : MM.SUnit) (sec : Str) (svc : MM.SUnit) (own pod : Str)
+    (hp : lookup u sec (s "Pod") = some pod) (hne : pod.isEmpty = false) (hs : endsWith pod (s ".pod") = false) :
+    handlePod E u sec svc own = .error (.invalidPod pod) := by
+  unfold handlePod; simp [hp, hne, hs]
+
+/-- the name a volume publishes is the name its own command creates -/
+theorem C08_volume_name_consistent (E : Env) (path : Str) (u svc : MM.SUnit) (n : Str)
+    (h : fromVolume E path u = .ok (svc, n)) : volumePublished ⟨path, u⟩ = some n := by
+  unfold fromVolume at h
+  simp only [bind_ok] at h
+  obtain ⟨_, h1, _, h2, x, _, svc1, _, hfin⟩ := h
+  simp only [pure, Except.pure, Except.ok.injEq, Prod.mk.injEq] at hfin
+  obtain ⟨_, rfl⟩ := hfin
+  have e1 : firstUnknown (entriesOf u (s "Volume")) supportedVolume = none := by
+    unfold checkUnknown at h1; split at h1 <;> simp_all
+  have e2 : firstUnknown (entriesOf u (s "Quadlet")) supportedQuadlet = none := by
+    unfold checkUnknown at h2; split at h2 <;> simp_all
+  unfold volumePublished
+  simp [e1, e2, QUnit.name]
+
+
+/-- a .network / .image unit publishes exactly the name its own conversion returns (and, by `C02_network_shape` /
+    `C02_image_shape`, puts last on its command line), whatever the name table holds -/
+theorem C08_network_publishes_what_it_creates (b : Bool) (t : Str → Option Info) (q : QUnit) (svc : MM.SUnit) (r : Str)
+    (hty : q.ty = s "network") (h : fromNetwork (envOf b t) q.path q.unit = .ok (svc, r)) :
+    publishOf b q = some { serviceName := serviceNameOf q.path q.unit, resourceName := r } := by
+  unfold publishOf
+  have e := fromNetwork_congr b (fun _ => none) t q.path q.unit
+  simp only [hty, show (s "network" == s "image") = false by decide, show (s "network" == s "volume") = false by decide,
+    beq_self_eq_true, Bool.false_eq_true, if_false, if_true]
+  rw [e, h]
+
+theorem C08_image_publishes_what_it_creates (b : Bool) (t : Str → Option Info) (q : QUnit) (svc : MM.SUnit) (r : Str)
+    (hty : q.ty = s "image") (h : fromImage (envOf b t) q.path q.unit = .ok (svc, r)) :
+    publishOf b q = some { serviceName := serviceNameOf q.path q.unit, resourceName := r } := by
+  unfold publishOf
+  have e := fromImage_congr b (fun _ => none) t q.path q.unit
+  simp only [hty, beq_self_eq_true, if_true]
+  rw [e, h]
+
 end Cv
